@@ -181,7 +181,14 @@ func containment(c *enumx.Ctx, sigPrefix string, recs []recDesc, ev *aucoalesce.
 			c.Report(sigPrefix+" field-dropped:"+r.Type+"."+k, fmt.Sprintf("%s: %s field %s=%q is nowhere in the event and no warning names it (warnings: %q)", desc, r.Type, k, v, wtxt), nil)
 			ok = false
 		}
+		// the statement quantifies over what Data() returns; a record's key= is reported by Tags(), not Data().
+		// The event's Tags come from the SYSCALL record (or the single record): only that record's tags are
+		// looked for - the key= of an auxiliary record (CONFIG_CHANGE ...) is dropped by the original, which the
+		// statement does not forbid (DESIGN 12.5)
 		tags, _ := m.Tags()
+		if r.Type != "SYSCALL" && len(recs) > 1 {
+			tags = nil
+		}
 		for _, tg := range tags {
 			if !lv[tg] && !strings.Contains(wtxt, "key") {
 				c.Report(sigPrefix+" tag-dropped:"+r.Type, fmt.Sprintf("%s: %s key/tag %q is nowhere in the event", desc, r.Type, tg), nil)
@@ -694,12 +701,16 @@ func coalesce(c *enumx.Ctx, msgs []*auparse.AuditMessage) (*aucoalesce.Event, er
 		good = false
 	}
 	var fresh []*auparse.AuditMessage
-	for _, l := range lines {
+	handMade := false
+	for i, l := range lines {
 		if m, err := auparse.ParseLogLine(l); err == nil {
 			fresh = append(fresh, m)
+			if !m.Timestamp.Equal(msgs[i].Timestamp) || m.Sequence != msgs[i].Sequence {
+				handMade = true // not what a parse of its own text gives: no fresh-parse comparison
+			}
 		}
 	}
-	if len(fresh) == len(msgs) && len(msgs) > 0 {
+	if len(fresh) == len(msgs) && len(msgs) > 0 && !handMade {
 		e3, err3 := aucoalesce.CoalesceMessages(fresh)
 		if s3 := evSnap(e3, err3); s3 != s1 {
 			c.Report("C15 recoalesce-differs", fmt.Sprintf("coalescing a fresh parse of the same lines gives\n  %s\nthe first coalesce gave\n  %s\ngroup: %q", s3, s1, lines), nil)
@@ -712,8 +723,184 @@ func coalesce(c *enumx.Ctx, msgs []*auparse.AuditMessage) (*aucoalesce.Event, er
 	return e1, err1
 }
 
+// (h) a SYSCALL record that LACKS one of its usual fields while another record of the event carries a field of
+// that name (with its own value), and path-shaped values that a "cleaning" step would alter (trailing and
+// doubled slashes, dot components) for cwd / name / exe.
+func c09Missing(c *enumx.Ctx) {
+	fields := []string{"arch", "syscall", "success", "exit", "a0", "a1", "a2", "a3", "items", "ppid", "pid", "auid", "uid", "gid", "euid", "suid", "fsuid", "egid", "sgid", "fsgid", "tty", "ses", "comm", "exe", "subj", "key"}
+	for fi, drop := range fields {
+		for _, auxType := range []string{"MQ_NOTIFY", "CWD", "OBJ_PID", "UNKNOWN[1399]"} {
+			for _, auxFirst := range []bool{false, true} {
+				if !c.Mine() {
+					continue
+				}
+				t := &tagger{numeric: fi%2 == 1}
+				full := syscallRec(t, 2, "")
+				var kept []string
+				for _, kv := range strings.Fields(full.Body) {
+					if !strings.HasPrefix(kv, drop+"=") {
+						kept = append(kept, kv)
+					}
+				}
+				sc := recDesc{"SYSCALL", strings.Join(kept, " ")}
+				if drop == "arch" || drop == "syscall" || drop == "items" {
+					// without arch / syscall the record cannot be interpreted at all; a SYSCALL record without items= is
+					// not something a kernel writes (outside "well-formed"), and the item count is the one field that is
+					// dropped on purpose whenever the SYSCALL record is merged
+					continue
+				}
+				aux := recDesc{auxType, drop + "=" + t.v() + " xq=" + t.v()}
+				rs := []recDesc{sc, aux}
+				if auxFirst {
+					rs = []recDesc{aux, sc}
+				}
+				desc := fmt.Sprintf("SYSCALL without %s= and a %s record carrying %s= (aux first: %v)", drop, auxType, drop, auxFirst)
+				c.Begin(func() string { return desc })
+				c.Try(tryProp(), func() {
+					msgs, ok := parseAll(c, rs)
+					if !ok {
+						return
+					}
+					ev, err := coalesce(c, msgs)
+					if oracleC15 {
+						return
+					}
+					if err != nil || ev == nil {
+						c.Report("C09 coalesce-error", fmt.Sprintf("%s: (%v, %v)", desc, ev, err), nil)
+						return
+					}
+					if identity(c, "C09", msgs[0], ev, desc) && containment(c, "C09", rs, ev, desc) {
+						c.Nontrivial()
+					}
+				})
+			}
+		}
+	}
+	shapes := []string{"/", "//", "/a/", "/a//b", "/a/./b", "/a/../b", "/a/b/.", "/a/b/..", ".", "..", "./a", "a/", "", "/a/b/", "///a", "/a/b//"}
+	for _, sh := range shapes {
+		for _, where := range []string{"cwd", "name", "exe"} {
+			for _, hexed := range []bool{false, true} {
+				if !c.Mine() {
+					continue
+				}
+				t := &tagger{}
+				val := sh
+				if sh != "" && sh != "/" && sh != "." && sh != ".." && sh != "//" {
+					val = strings.Replace(sh, "a", "d"+t.v(), 1)
+				}
+				enc := "\"" + val + "\""
+				if hexed || val == "" {
+					enc = strings.ToUpper(hex.EncodeToString([]byte(val + " x")))
+					val = val + " x"
+				}
+				sc := syscallRec(t, 2, "")
+				cw := recDesc{"CWD", "cwd=\"/c/" + t.v() + "\""}
+				p := pathRec(t, 0, "NORMAL", "0100644", "ino"+t.v())
+				switch where {
+				case "cwd":
+					cw = recDesc{"CWD", "cwd=" + enc}
+				case "name":
+					p.Body = strings.Replace(p.Body, "name=\"/p/", "name="+enc+" oldname=\"/p/", 1)
+				case "exe":
+					sc.Body = strings.Replace(sc.Body, "exe=\"/bin/", "exe="+enc+" oexe=\"/bin/", 1)
+				}
+				rs := []recDesc{sc, cw, p}
+				desc := fmt.Sprintf("open event whose %s is %q", where, val)
+				c.Begin(func() string { return desc })
+				c.Try(tryProp(), func() {
+					msgs, ok := parseAll(c, rs)
+					if !ok {
+						return
+					}
+					ev, err := coalesce(c, msgs)
+					if oracleC15 {
+						return
+					}
+					if err != nil || ev == nil {
+						c.Report("C09 coalesce-error", fmt.Sprintf("%s: (%v, %v)", desc, ev, err), nil)
+						return
+					}
+					if identity(c, "C09", msgs[0], ev, desc) && containment(c, "C09", rs, ev, desc) {
+						c.Nontrivial()
+					}
+				})
+			}
+		}
+	}
+}
+
+// (i) records whose header time is an edge (the zero time 0001-01-01, the epoch, negative, far future) and
+// messages assembled BY HAND (no time at all, no text): the event's identity is the first record's - whatever
+// it is - and nothing is taken from the clock.
+func c09Times(c *enumx.Ctx) {
+	secs := []string{"-62135596800", "-62135596801", "0", "-1", "1", "2147483647", "2147483648", "4294967296", "253402300799", "253402300800", "9223372036"}
+	for _, s := range secs {
+		for _, ms := range []string{"000", "001", "999"} {
+			for _, typ := range []string{"USER_LOGIN", "SYSCALL", "UNKNOWN[1999]"} {
+				if !c.Mine() {
+					continue
+				}
+				t := &tagger{}
+				body := "pid=" + t.v() + " uid=0 auid=1000 ses=1 msg='op=login acct=\"" + t.v() + "\" exe=\"/x\" hostname=h addr=1.2.3.4 terminal=t res=success'"
+				if typ == "SYSCALL" {
+					body = syscallRec(t, 39, "").Body
+				}
+				line := "type=" + typ + " msg=audit(" + s + "." + ms + ":77): " + body
+				desc := "single " + typ + " record stamped " + s + "." + ms
+				c.Begin(func() string { return line })
+				c.Try(tryProp(), func() {
+					m, err := auparse.ParseLogLine(line)
+					if err != nil {
+						return // the parser's business
+					}
+					msgs := []*auparse.AuditMessage{m}
+					ev, err := coalesce(c, msgs)
+					if oracleC15 {
+						return
+					}
+					if err != nil || ev == nil {
+						c.Report("C09 single-record-error", fmt.Sprintf("%s: (%v, %v)", desc, ev, err), nil)
+						return
+					}
+					if identity(c, "C09", m, ev, desc) {
+						c.Nontrivial()
+					}
+				})
+			}
+		}
+	}
+	// by hand
+	for typ := 1100; typ < 1400; typ += 7 {
+		for _, withRaw := range []bool{false, true} {
+			if !c.Mine() {
+				continue
+			}
+			m := &auparse.AuditMessage{RecordType: auparse.AuditMessageType(typ), Sequence: uint32(typ)}
+			if withRaw {
+				m.RawData = "audit(1700000000.123:5): pid=1 uid=0 res=success"
+			}
+			desc := fmt.Sprintf("hand-made message of type %d (zero time, raw text: %v)", typ, withRaw)
+			c.Begin(func() string { return desc })
+			c.Try(tryProp(), func() {
+				ev, err := coalesce(c, []*auparse.AuditMessage{m})
+				if oracleC15 {
+					return
+				}
+				if err != nil || ev == nil {
+					return // refusing such a message is fine
+				}
+				if identity(c, "C09", m, ev, desc) {
+					c.Nontrivial()
+				}
+			})
+		}
+	}
+}
+
 func init() {
-	for _, g := range []string{"c09-modes", "c09-groups", "c09-singles", "c09-repeats", "c09-names", "c09-syscalls"} {
+	gens["c09-times"] = c09Times
+	gens["c09-missing"] = c09Missing
+	for _, g := range []string{"c09-times", "c09-missing", "c09-modes", "c09-groups", "c09-singles", "c09-repeats", "c09-names", "c09-syscalls"} {
 		g := g
 		gens["c15:"+g] = func(c *enumx.Ctx) {
 			oracleC15 = true
